@@ -63,15 +63,20 @@ def small_cases(n, k):
 
 
 def interleave(*streams):
-    its = [iter(s) for s in streams]
+    """Round robin; a stream given as (iterable, w) contributes w items per round."""
+    its = [(iter(s[0]), s[1]) if isinstance(s, tuple) else (iter(s), 1) for s in streams]
     while its:
         nxt = []
-        for it in its:
-            try:
-                yield next(it)
-                nxt.append(it)
-            except StopIteration:
-                pass
+        for it, w in its:
+            alive = True
+            for _ in range(w):
+                try:
+                    yield next(it)
+                except StopIteration:
+                    alive = False
+                    break
+            if alive:
+                nxt.append((it, w))
         its = nxt
 
 
@@ -84,13 +89,13 @@ def cases(tier, seed):
     if tier == "quick":
         yield from small_cases(1, 2) + small_cases(2, 2) + small_cases(2, 3) + small_cases(3, 2)
         exh = small_cases(4, 2)
-        yield from interleave(exh, rand_stream("walk", 120000),
+        yield from interleave((exh, 3), (rand_stream("walk", 120000), 8),
                               rand_stream("wide", 160), rand_stream("errors", 1500),
                               rand_stream("boundary", 300))
     else:
         yield from small_cases(1, 2) + small_cases(2, 2) + small_cases(2, 3) + small_cases(3, 2)
         exh = small_cases(4, 2) + small_cases(3, 3) + small_cases(4, 3) + small_cases(5, 2)
-        yield from interleave(exh, rand_stream("walk", 6000000),
+        yield from interleave((exh, 20), (rand_stream("walk", 6000000), 60),
                               rand_stream("wide", 20000), rand_stream("errors", 30000),
                               rand_stream("boundary", 5000))
 
